@@ -2,6 +2,8 @@ import BbRe.Lemmas.SchedTreeLock
 import BbRe.Lemmas.SchedInvParked
 import BbRe.Lemmas.SchedTreeRead
 import BbRe.Lemmas.SchedTreePrioStep
+import BbRe.Lemmas.SchedTreePrioFixStep
+import BbRe.Lemmas.SchedTreeTrue
 /-!
 # C04 (tree layer) — the invocation tree as state refines the scheduler model
 
@@ -13,7 +15,7 @@ about every reachable state of that layer / every run (`TReachable`, `trun`): al
 all analyzer answers, all choices.
 -/
 namespace BbRe.Properties.C04Tree
-open BbRe.Sched BbRe.SchedTree BbRe.Lemmas.SchedTree
+open BbRe BbRe.Sched BbRe.SchedTree BbRe.Lemmas.SchedTree
 
 /-- **refines_sched.**  The projection to `Sched.State` of a tree-layer step is `Sched.step` of the
 projection, with hints := the choice made (the tree layer only rejects more segments: those whose hand-out
@@ -89,17 +91,178 @@ worker in their subtree; `executingWorkers[w]` = the number of operations in the
 number of workers whose last invocation is in the subtree; a non-root invocation exists iff something of the
 above is recorded at or below it (`getOrCreateInvocation` / `removeIfEmpty`).
 
-`firstQueuedOperationPriority` (second conjunct): for a non-root invocation with queued operations of its own
-the field is the least priority among them (`queuedOperations[0].priority`; the root is never refreshed).
-For an invocation WITHOUT directly queued operations nothing is an invariant of the Go code: the field is a
-copy of the value its then-first queued child had when `updateFirstOperationPriority` last ran on the path,
-and `incrementExecutingWorkersCount` / `decrementExecutingWorkersCount` reorder `queuedChildren` without
-refreshing it (see notes/findings/C04-stale-first-priority.md: the documented meaning "priority of the
-operation expected to be executed next" is violated on the real scheduler within 6 segments; the model
-reproduces the real values, which the harness compares after every segment). -/
+`firstQueuedOperationPriority` (second conjunct; for the scheduler with the fix of
+notes/findings/C04-stale-first-priority.md — every reachable state has `legacyPrio = false`): every non-root
+invocation caches exactly what `updateFirstOperationPriority` would store now: the least priority of its own
+queued operations when it has any, otherwise the cached priority of its first queued child (`bestKid`: the
+first child in `queuedChildren` that no other queued child is `childLess` than — in the code
+`queuedChildren[0]`, which is such a child; where several such children tie with different priorities the
+heap layout decides, see the assumptions).  Unfolding the recursion, the cache of an invocation with queued
+work is the priority of the operation the documented walk hands out next below it (`true_priorities` below).
+The root's cache is never read and only refreshed by increment/decrementExecutingWorkersCount. -/
 theorem tree_inv (ts : TState) (h : TReachable ts) :
-    TreeInv ts ∧ ∀ n ∈ ts.nodes, n.path ≠ [] → n.qops ≠ [] → n.prio = minPrio (n.qops.map ts.prioOf) :=
-  ⟨(tinv_reachable h).treeInv, prio_reachable h⟩
+    TreeInv ts ∧ ts.legacyPrio = false ∧
+    ∀ n ∈ ts.nodes, n.path ≠ [] →
+      (n.qops ≠ [] → n.prio = minPrio (n.qops.map ts.prioOf)) ∧
+      (n.qops = [] → n.qkids ≠ [] → ∃ c, bestKid ts.nodes n = some c ∧ n.prio = c.prio) := by
+  refine ⟨(tinv_reachable h).treeInv, legacy_reachable h, ?_⟩
+  obtain ⟨hfix, hnd, hqk⟩ := fix_reachable h
+  intro n hn hp
+  have hf := hfix n hn hp
+  constructor
+  · intro hq
+    rw [← hf]
+    unfold updPrio
+    have : (!n.qops.isEmpty) = true := by
+      cases hx : n.qops with
+      | nil => exact absurd hx hq
+      | cons _ _ => rfl
+    rw [if_pos this]
+  · intro hq hk
+    -- the first queued child exists
+    have hne : kidsOf ts.nodes n ≠ [] := by
+      cases hx : n.qkids with
+      | nil => exact absurd hx hk
+      | cons k r =>
+        obtain ⟨c, hc, _⟩ := hqk n hn k (by rw [hx]; exact List.mem_cons_self)
+        unfold kidsOf
+        rw [hx, List.filterMap_cons, hc]
+        exact List.cons_ne_nil _ _
+    have hbk : ∃ c, bestKid ts.nodes n = some c := by
+      unfold bestKid
+      simp only []
+      split
+      · exact ⟨_, rfl⟩
+      · cases hx : kidsOf ts.nodes n with
+        | nil => exact absurd hx hne
+        | cons a r => exact ⟨a, rfl⟩
+    obtain ⟨c, hc⟩ := hbk
+    refine ⟨c, hc, ?_⟩
+    rw [← hf]
+    unfold updPrio
+    have : (!n.qops.isEmpty) = false := by rw [hq]; rfl
+    rw [this, hc]
+    rfl
+
+/-- what `bestKid` is: one of the invocations listed in `queuedChildren`, and — whenever the queued children
+have a least element for `childLess` at all — one that no queued child is `childLess` than -/
+theorem bestKid_spec (ns : List Node) (n c : Node) (h : bestKid ns n = some c) :
+    c ∈ kidsOf ns n ∧
+    ((∃ g ∈ kidsOf ns n, ∀ g' ∈ kidsOf ns n, childLess g' g = false) → ∀ g' ∈ kidsOf ns n, childLess g' c = false) := by
+  unfold bestKid at h
+  simp only [] at h
+  split at h
+  · rename_i g hg
+    cases h
+    have := List.find?_some hg
+    refine ⟨List.mem_of_find?_eq_some hg, fun _ g' hg' => ?_⟩
+    have h2 := List.all_eq_true.mp this g' hg'
+    simpa using h2
+  · rename_i hnone
+    refine ⟨List.mem_of_mem_head? h, ?_⟩
+    rintro ⟨g, hg, hmin⟩
+    exfalso
+    have := List.find?_eq_none.mp hnone g hg
+    apply this
+    exact List.all_eq_true.mpr (fun g' hg' => by rw [hmin g' hg']; rfl)
+
+/-- the weaker clause that holds before AND after the fix (any `legacyPrio`): own queued operations determine
+the cache -/
+theorem tree_inv_own_priority (ts : TState) (h : TReachable ts) :
+    ∀ n ∈ ts.nodes, n.path ≠ [] → n.qops ≠ [] → n.prio = minPrio (n.qops.map ts.prioOf) :=
+  prio_reachable h
+
+/-- **true_priorities.**  Every queue pick ever made was admissible for a tree whose stored priorities are
+the TRUE ones: the snapshot recorded with the decision (`handoff_and_pick_admissible`: the pick is in
+`Fair.specPick` of it) is `truthful` — every invocation below the root caches
+`truePrio` = the least priority of its own queued operations, else the cached priority of the first queued
+child that no other queued child is `Fair.childLess` than — and `queuedLive` (`queued` lists existing, queued
+children), so that (`Lemmas/SchedTreeTrue.lean`, `truthful_reading`) the priority by which an invocation with
+queued work is ordered among its siblings is the priority of an operation queued at or below it, and for an
+invocation with own operations the least of them.  (Before the fix of
+notes/findings/C04-stale-first-priority.md this fails: `legacy_stale_priority_counterexample`.) -/
+theorem true_priorities (ts : TState) (h : TReachable ts) :
+    ∀ d ∈ ts.decisions,
+      match d with
+      | .pick _ _ _ tree view op retained =>
+          (op, retained) ∈ Fair.specPick tree view ∧ TrueDefs.truthful tree = true ∧ TrueDefs.queuedLive tree = true
+      | .handoff .. => True := by
+  intro d hd
+  have h1 := (handoff_and_pick_admissible ts h).2 d hd
+  have h2 := decfix_reachable h d hd
+  cases d with
+  | handoff => trivial
+  | pick q w t tree view op retained =>
+    obtain ⟨opOf, pr, ns, hf, hs, hop, rfl⟩ := h2
+    exact ⟨h1, truthful_snapshot q hf hs hop, queuedLive_snapshot q hs⟩
+
+/-! ### the scheduler before the fix: counterexample -/
+
+namespace Cex
+def q : ScqId := ⟨1, 0⟩
+def wA : WId := ⟨2, 1⟩
+def wB : WId := ⟨3, 1⟩
+def cfg : Cfg := ⟨10, 10, 30, 100, 5, 50, 3, 1000⟩
+def h0 : Hints := ⟨[], 0, none, false⟩
+def seg (s : Seg) : TSeg := { seg := s }
+/-- the history of notes/findings/C04-stale-first-priority.md: worker A blocks; client 6 (invocation [1,2],
+priority -7) is handed to it; clients 9 ([1,2], priority 0) and 13 ([1,3], priority 50) are queued; A times out
+at 52 (its task is completed: `decrementExecutingWorkersCount`); client 20 ([2], priority 25) is queued -/
+def pre : List TSeg :=
+  [ seg (.sync h0 1 q [] 7 wA .idle false),
+    seg (.exec ⟨[(q, wA, 1)], 0, none, false⟩ 2 6 10 10 true [] 7 [1, 2] (-7)),
+    seg (.syncWake h0 2 q wA 0),
+    seg (.exec h0 2 9 11 11 true [] 7 [1, 2] 0),
+    seg (.exec h0 2 13 12 12 true [] 7 [1, 3] 50),
+    seg (.touch h0 60),
+    seg (.exec h0 60 20 13 13 true [] 7 [2] 25) ]
+/-- a new worker B asks for work and is given the task with operation `op` -/
+def syncB (op : Nat) : TSeg := seg (.sync ⟨[(q, wB, op)], 0, none, false⟩ 60 q [] 7 wB .idle false)
+def strictRun (ts : TState) (gs : List TSeg) : M TState := gs.foldlM tstep ts
+def legacyInit : TState := { TState.init cfg with legacyPrio := true }
+def accepted (r : M TState) : Bool := match r with | .ok _ => true | .error _ => false
+
+def nd (p : List Nat) (qops qkids : List Nat) (prio : Int) (ex : List (Option WId × Nat)) (co : Nat) : Node :=
+  { scq := q, path := p, qops := qops, qkids := qkids, ikids := [], prio := prio, exec := ex, started := 2,
+    completed := co, idle := 0, parked := [] }
+/-- the tree after the first five segments (before the time-out), with either code -/
+def nodes5 : List Node :=
+  [ nd [] [] [1] 0 [(some wA, 1)] 0, nd [1] [] [2, 3] 50 [(some wA, 1)] 2, nd [1, 2] [2] [] 0 [(some wA, 1)] 2,
+    nd [1, 3] [3] [] 50 [] 2 ]
+def pr (o : Nat) : Int := if o = 2 then 0 else if o = 3 then 50 else if o = 4 then 25 else -7
+def opOf (o : Nat) : Fair.Op := { id := o, prio := pr o, dur := 0, ts := if o = 4 then 60 else 2 }
+/-- the tree operations of the last two segments of `pre` that matter: the stage switch of A's task
+(`decrementExecutingWorkersCount` for its operation in [1,2]), `getOrCreateInvocation([2])`, `enqueue` of
+operation 4 -/
+def after (legacy : Bool) : List Node :=
+  enqueueOp pr (getOrCreate (decExecR legacy pr nodes5 q [1, 2] (some wA) 60) q [2] 60) q [2] 4
+def view : Fair.WView := { lastKeys := [], limits := [], starts := [], now := 60 }
+def prioAt (ns : List Node) (p : List Nat) : Option Int := (node? ns q p).map (·.prio)
+
+-- run by the interpreter when this file is built (the kernel cannot evaluate whole runs of the model in
+-- reasonable memory): `nodes5` is the model's tree after five segments, with either code; the old code
+-- accepts the hand-out of operation 4 (priority 25) to B and rejects that of operation 2 (priority 0), the
+-- fixed code the other way round
+#guard (match strictRun legacyInit (pre.take 5), strictRun (TState.init cfg) (pre.take 5) with
+  | .ok a, .ok b => toString (repr a.nodes) == toString (repr nodes5) && toString (repr b.nodes) == toString (repr nodes5)
+  | _, _ => false)
+#guard accepted (strictRun legacyInit (pre ++ [syncB 4])) && !accepted (strictRun legacyInit (pre ++ [syncB 2]))
+#guard accepted (strictRun (TState.init cfg) (pre ++ [syncB 2])) && !accepted (strictRun (TState.init cfg) (pre ++ [syncB 4]))
+end Cex
+
+set_option maxRecDepth 20000 in
+/-- **The defect of notes/findings/C04-stale-first-priority.md, on the model of the old code**
+(`legacyPrio = true`, proved by evaluation in the kernel).  After the time-out of the worker that executed
+in invocation [1,2], invocation [1] still caches priority 50 (that of [1,3], which was its first queued child
+while [1,2] had an executing worker) although its first queued child is now [1,2] with priority 0; the
+documented rule applied to the tree as the old code stores it then admits exactly operation 4 (invocation
+[2], priority 25: score 2^0.25 against the stale 2^0.5) for a worker without stickiness, although operation 2
+(priority 0, score 1) is queued.  With the fix the cache is 0 and exactly operation 2 is admitted. -/
+theorem legacy_stale_priority_counterexample :
+    Cex.prioAt (Cex.after true) [1] = some 50 ∧ Cex.prioAt (Cex.after false) [1] = some 0 ∧
+    (Fair.specPick (snapshot Cex.opOf (Cex.after true) Cex.q) Cex.view).map (fun c => (c.1.id, c.1.prio)) = [(4, 25)] ∧
+    (Fair.specPick (snapshot Cex.opOf (Cex.after false) Cex.q) Cex.view).map (fun c => (c.1.id, c.1.prio)) = [(2, 0)] := by
+  decide
 
 /-- the executable checker of `Model/SchedTreeCheck.lean` that the driver runs after every segment
 (`treecheck`) tests the clauses of the invariant behind `tree_inv`; the invariant itself, in the form the
